@@ -95,6 +95,7 @@ static struct {
 	uint32_t pct_points[8];
 	int max_threads;
 	int last_thread_cls, last_opcode;
+	int trace;
 } S;
 
 static __thread int my_id = -1;
@@ -475,6 +476,10 @@ sched_point(int op, int objidx)
 	}
 
 	int next = choose_next(x->state == T_DONE ? -1 : me);
+	if (S.trace) {
+		static const char *on[] = { "?", "yield", "lock", "unlock", "wait", "timedwait", "signal", "create", "join", "exit", "start", "minit", "mdestroy", "cinit", "cdestroy", "clock" };
+		fprintf(stderr, "sched %llu: T%d %s obj%d -> T%d\n", (unsigned long long)S.steps, me, on[op], objidx, next);
+	}
 
 	// cross-thread transition coverage
 	if (next != me) {
@@ -534,6 +539,7 @@ sim_begin(const sim_params *p)
 	for (int k = 0; k < 8; ++k)
 		S.pct_points[k] = (uint32_t)(rng_next() % S.p.pct_horizon);
 	my_id = 0;
+	S.trace = getenv("SIM_TRACE") != NULL;
 	S.active = 1;
 }
 
